@@ -5,7 +5,7 @@
     reduce to a finite case analysis over the transformers (Proofs/FloorInv.v). *)
 From Coq Require Import ZArith List Bool Lia.
 From RecordUpdate Require Import RecordUpdate.
-From SimVerif Require Import Model.Base Model.Env Model.RM Model.Maint Model.FloorTypes Model.Floor.
+From SimVerif Require Import Model.Base Model.Env Model.RM Model.Maint Model.FloorTypes Model.Floor Proofs.RMInv.
 Import ListNotations.
 Open Scope Z_scope.
 
@@ -53,7 +53,8 @@ Inductive dprim (nw : Z) : (dev -> Prop) -> (dev -> dev) -> Prop :=
 | dp_reserved o : dprim nw (fun _ => True) (t_reserved o)
 | dp_waiting_res b : dprim nw (fun _ => True) (t_waiting_res b)
 | dp_accept it : dprim nw (fun x => d_part x = None /\ d_out x = None /\ d_kind x <> KBuffer /\ d_kind x <> KSink /\ d_kind x <> KProcessor) (t_accept nw it)
-| dp_accept_proc it : dprim nw (fun x => d_part x = None /\ d_out x = None /\ d_kind x = KProcessor /\ d_shut x = false) (t_accept_proc nw it)
+| dp_accept_proc it : dprim nw (fun x => d_part x = None /\ d_out x = None /\ d_kind x = KProcessor /\ d_shut x = false /\
+                                      (d_req x = None \/ d_reserved x <> None)) (t_accept_proc nw it)
 | dp_accept_buffer it :
     dprim nw (fun x => d_part x = None /\ d_out x = None /\ d_kind x = KBuffer /\ inf_leb (d_level x + item_count it) (d_capacity x) = true)
           (t_accept_buffer nw it)
@@ -66,14 +67,94 @@ Inductive dprim (nw : Z) : (dev -> Prop) -> (dev -> dev) -> Prop :=
 | dp_block b : dprim nw (fun _ => True) (t_block b)
 | dp_budget z : dprim nw (fun _ => True) (t_budget z).
 
+(** the copy of the manager a floor call works on: no pending output, no error *)
+Definition clean_rs (r0 : rs) : rs :=
+  mkRs (r_pools r0) (r_wait r0) (r_res r0) (r_slots r0) (r_cblog r0) [] 0 (r_env r0) (r_nreg r0).
+
+(** a manager call that neither creates nor changes a reservation and leaves every pool's usage alone
+    (a refused or invalid request, a registration, a capacity change) *)
+Definition rm_quiet (s s' : rs) : Prop :=
+  RInv s -> RInv s' /\ r_res s' = r_res s /\ (forall m, usage (r_pools s') m = usage (r_pools s) m).
+
+Definition keeps_res (f : dev -> dev) : Prop := forall x, d_reserved (f x) = d_reserved x /\ d_req (f x) = d_req x.
+
+(** world-level steps: what one primitive action of the floor model does to the whole world *)
 Inductive wstep (nw : Z) : fw -> fw -> Prop :=
-| ws_dev w d g f : dprim nw g f -> g (getd w d) -> wstep nw w (updd w d f)
-| ws_other w w' : f_devs w' = f_devs w -> f_groups w' = f_groups w -> wstep nw w w'
+| ws_dev w d g f : dprim nw g f -> keeps_res f -> g (getd w d) -> wstep nw w (updd w d f)
+| ws_emit w c : wstep nw w (emitf w c)
+| ws_failf w e : wstep nw w (failf w e)
+| ws_log w l : wstep nw w (w <| f_cblog ::= cons l |>)
+| ws_nextid w z : wstep nw w (w <| f_next_id := z |>)
+| ws_maint w mid f : wstep nw w (maint_call w mid f)
+| ws_rm_quiet w f : rm_quiet (clean_rs (f_rm w)) (f (clean_rs (f_rm w))) -> wstep nw w (rm_call w f)
+| ws_rm_raw w g :
+    r_pools (g (f_rm w)) = r_pools (f_rm w) -> r_res (g (f_rm w)) = r_res (f_rm w) -> r_slots (g (f_rm w)) = r_slots (f_rm w) ->
+    wstep nw w (w <| f_rm ::= g |>)
+| ws_reserve w d rq i :
+    d_req (getd w d) = Some rq -> d_reserved (getd w d) = None -> amem d (f_devs w) = true ->
+    snd (reserve nw rq (clean_rs (f_rm w))) = Some i ->
+    wstep nw w (updd (rm_call w (fun _ => fst (reserve nw rq (clean_rs (f_rm w))))) d (t_reserved (Some i)))
+| ws_release w d i :
+    d_reserved (getd w d) = Some i -> amem d (f_devs w) = true ->
+    wstep nw w (updd (rm_call w (release_obj nw i None)) d (t_reserved None))
 | ws_everywhere w pid f : (forall p, p_id (f p) = p_id p) -> wstep nw w (upd_part_everywhere pid f w).
 
 Inductive R (nw : Z) : fw -> fw -> Prop :=
 | R_refl w : R nw w w
 | R_step w1 w2 w3 : wstep nw w1 w2 -> R nw w2 w3 -> R nw w1 w3.
+
+(** the device-level view of the same steps (all that per-device invariants need) *)
+Inductive dstep (nw : Z) : fw -> fw -> Prop :=
+| ds_dev w d g f : dprim nw g f -> g (getd w d) -> dstep nw w (updd w d f)
+| ds_other w w' : f_devs w' = f_devs w -> f_groups w' = f_groups w -> dstep nw w w'
+| ds_everywhere w pid f : (forall p, p_id (f p) = p_id p) -> dstep nw w (upd_part_everywhere pid f w).
+
+Inductive RD (nw : Z) : fw -> fw -> Prop :=
+| RD_refl w : RD nw w w
+| RD_step w1 w2 w3 : dstep nw w1 w2 -> RD nw w2 w3 -> RD nw w1 w3.
+
+Lemma rm_call_devs w f : f_devs (rm_call w f) = f_devs w /\ f_groups (rm_call w f) = f_groups w.
+Proof. unfold rm_call. cbv zeta. destruct (_ =? 0); [auto|]. unfold failf. destruct (_ =? 0); auto. Qed.
+
+Lemma RD_one nw a b : dstep nw a b -> RD nw a b.
+Proof. intro H. econstructor; [exact H|constructor]. Qed.
+
+Lemma wstep_RD nw w w' : wstep nw w w' -> RD nw w w'.
+Proof.
+  intro S. destruct S.
+  - apply RD_one. eapply ds_dev; eauto.
+  - apply RD_one. apply ds_other; reflexivity.
+  - apply RD_one. apply ds_other; unfold failf; destruct (f_err w =? 0); reflexivity.
+  - apply RD_one. apply ds_other; reflexivity.
+  - apply RD_one. apply ds_other; reflexivity.
+  - apply RD_one. apply ds_other; reflexivity.
+  - apply RD_one. apply ds_other; apply rm_call_devs.
+  - apply RD_one. apply ds_other; reflexivity.
+  - eapply RD_step; [apply ds_other; apply rm_call_devs|].
+    apply RD_one. apply (ds_dev nw _ d _ _ (dp_reserved nw (Some i))). exact I.
+  - eapply RD_step; [apply ds_other; apply rm_call_devs|].
+    apply RD_one. apply (ds_dev nw _ d _ _ (dp_reserved nw None)). exact I.
+  - apply RD_one. apply ds_everywhere; assumption.
+Qed.
+
+Lemma RD_trans nw a b c : RD nw a b -> RD nw b c -> RD nw a c.
+Proof. induction 1 as [|w1 w2 w3 S _ IH]; intro Hbc; [exact Hbc|]. econstructor; [exact S|apply IH, Hbc]. Qed.
+
+Theorem R_RD nw w w' : R nw w w' -> RD nw w w'.
+Proof. induction 1 as [|w1 w2 w3 S _ IH]; [constructor|]. eapply RD_trans; [apply wstep_RD, S|exact IH]. Qed.
+
+Ltac kr :=
+  let x := fresh "x" in
+  intro x;
+  unfold t_accept_sink, t_accept_proc, t_accept_buffer, t_accept, t_shutdown, t_restore, t_supplied, t_buf_pop, t_buf_store, t_map_slot,
+         t_finish_proc, t_fail_clear, t_stop_use, t_finish, t_generated, t_clear_out, t_clear_part, t_batch_single, t_batch_full, t_batch_more,
+         t_waiting_res, t_waiting_ds, t_set_cycle, t_add_offset, t_reset_offset, t_block, t_budget, dev_set_wait, dev_add_value;
+  cbv zeta;
+  repeat match goal with
+         | |- context[if ?b then _ else _] => destruct b
+         | |- context[match ?o with _ => _ end] => destruct o
+         end;
+  split; reflexivity.
 
 Section Steps.
 Variable nw : Z.
@@ -85,16 +166,15 @@ Proof. induction 1 as [|w1 w2 w3 S _ IH]; intro Hbc; [exact Hbc|]. econstructor;
 Lemma R_one a b : wstep nw a b -> R a b.
 Proof. intro H. econstructor; [exact H|constructor]. Qed.
 
-Lemma R_dev w d g f : dprim nw g f -> g (getd w d) -> R w (updd w d f).
+Lemma R_dev w d g f : dprim nw g f -> keeps_res f -> g (getd w d) -> R w (updd w d f).
 Proof. intros. apply R_one. econstructor; eauto. Qed.
 
-Lemma R_other w w' : f_devs w' = f_devs w -> f_groups w' = f_groups w -> R w w'.
-Proof. intros. apply R_one, ws_other; assumption. Qed.
-
 Lemma R_emit w c : R w (emitf w c).
-Proof. apply R_other; reflexivity. Qed.
+Proof. apply R_one, ws_emit. Qed.
 Lemma R_fail w e : R w (failf w e).
-Proof. apply R_other; unfold failf; destruct (f_err w =? 0); reflexivity. Qed.
+Proof. apply R_one, ws_failf. Qed.
+Lemma R_nextid w z : R w (w <| f_next_id := z |>).
+Proof. apply R_one, ws_nextid. Qed.
 Lemma R_data w l s p : R w (data w l s p).
 Proof. apply R_emit. Qed.
 
@@ -159,7 +239,7 @@ Proof.
   induction (f_devs w) as [|[k x] l IH]; cbn; [reflexivity|]. destruct (d =? k); [reflexivity|exact IH].
 Qed.
 
-Lemma R_kind w w' : R w w' -> forall d, d_kind (getd w' d) = d_kind (getd w d).
+Lemma RD_kind w w' : RD nw w w' -> forall d, d_kind (getd w' d) = d_kind (getd w d).
 Proof.
   induction 1 as [|w1 w2 w3 S _ IH]; intro d; [reflexivity|]. rewrite IH. destruct S as [w0 d0 g f P G|w0 w0' E _|w0 pid f _].
   - apply getd_updd_field. apply (dprim_kind g f P).
@@ -167,8 +247,29 @@ Proof.
   - apply upd_everywhere_kind.
 Qed.
 
+Lemma R_kind w w' : R w w' -> forall d, d_kind (getd w' d) = d_kind (getd w d).
+Proof. intro H. apply RD_kind, R_RD, H. Qed.
+
+Lemma amem_everywhere pid f w d : amem d (f_devs (upd_part_everywhere pid f w)) = amem d (f_devs w).
+Proof.
+  unfold upd_part_everywhere, amem. cbn.
+  induction (f_devs w) as [|[k x] l IH]; cbn; [reflexivity|]. destruct (d =? k); [reflexivity|exact IH].
+Qed.
+
+Lemma RD_amem w w' : RD nw w w' -> forall d, amem d (f_devs w') = amem d (f_devs w).
+Proof.
+  induction 1 as [|w1 w2 w3 S _ IH]; intro d; [reflexivity|]. rewrite IH. destruct S as [w0 d0 g f P G|w0 w0' E _|w0 pid f _].
+  - apply amem_updd.
+  - rewrite E. reflexivity.
+  - apply amem_everywhere.
+Qed.
+
+Lemma R_amem w w' : R w w' -> forall d, amem d (f_devs w') = amem d (f_devs w).
+Proof. intro H. apply RD_amem, R_RD, H. Qed.
+
+
 Ltac Rt := first [apply R_refl | apply R_emit | apply R_fail | apply R_data].
-Ltac step_dev w0 d0 f0 prim := apply (R_trans w0 (updd w0 d0 f0)); [apply (R_dev w0 d0 _ f0 prim)|].
+Ltac step_dev w0 d0 f0 prim := apply (R_trans w0 (updd w0 d0 f0)); [apply (R_dev w0 d0 _ f0 prim); [kr|]|].
 
 (** * the functions, bottom up *)
 Lemma R_sched_pass off w d : R w (sched_pass nw off w d).
@@ -195,14 +296,11 @@ Proof.
     destruct (aget (d_group x) (f_groups w)); [apply IH|Rt].
 Qed.
 
-Lemma rm_call_devs w f : f_devs (rm_call w f) = f_devs w /\ f_groups (rm_call w f) = f_groups w.
-Proof. unfold rm_call. cbv zeta. destruct (_ =? 0); [auto|]. unfold failf. destruct (_ =? 0); auto. Qed.
-
-Lemma R_rm_call w f : R w (rm_call w f).
-Proof. apply R_other; apply rm_call_devs. Qed.
+Lemma R_rm_quiet w f : rm_quiet (clean_rs (f_rm w)) (f (clean_rs (f_rm w))) -> R w (rm_call w f).
+Proof. intro Q. apply R_one, ws_rm_quiet, Q. Qed.
 
 Lemma R_maint_call w mid f : R w (maint_call w mid f).
-Proof. apply R_other; reflexivity. Qed.
+Proof. apply R_one, ws_maint. Qed.
 
 Lemma R_create_wo mid t g w : R w (create_wo nw mid t g w).
 Proof. apply R_maint_call. Qed.
@@ -216,14 +314,14 @@ Lemma R_run_cbop d slot isf lost w o : R w (run_cbop nw d slot isf lost w o).
 Proof.
   unfold run_cbop. destruct (negb (okf w)); [Rt|].
   destruct o.
-  - apply (R_dev w d _ _ (dp_set_cycle nw z)). exact I.
-  - apply (R_dev w d _ _ (dp_add_offset nw z)). exact I.
+  - apply (R_dev w d _ _ (dp_set_cycle nw z)); [kr|exact I].
+  - apply (R_dev w d _ _ (dp_add_offset nw z)); [kr|exact I].
   - destruct (if slot then d_part (getd w d) else d_out (getd w d)) as [i|]; [|Rt].
-    destruct (is_batch i); [Rt|]. apply (R_dev w d _ _ (dp_map_slot nw slot _ (same_ids_add_value z))). exact I.
-  - apply (R_dev w d _ _ (dp_map_slot nw slot _ (same_ids_set_quality z))). exact I.
+    destruct (is_batch i); [Rt|]. apply (R_dev w d _ _ (dp_map_slot nw slot _ (same_ids_add_value z))); [kr|exact I].
+  - apply (R_dev w d _ _ (dp_map_slot nw slot _ (same_ids_set_quality z))); [kr|exact I].
   - apply R_create_wo.
   - destruct isf; [apply R_create_wo|Rt].
-  - apply R_other; reflexivity.
+  - apply R_one, ws_log.
 Qed.
 
 Lemma R_run_cbops d slot isf lost ops : forall w, R w (run_cbops nw d slot isf lost ops w).
@@ -232,6 +330,9 @@ Proof. unfold run_cbops. apply R_fold. intros. apply R_run_cbop. Qed.
 Lemma generate_devs w d : f_devs (fst (generate w d)) = f_devs w /\ f_groups (fst (generate w d)) = f_groups w.
 Proof. unfold generate. destruct (d_gen_batch (getd w d) <=? 0); cbn; auto. Qed.
 
+Lemma generate_nextid w d : exists z, fst (generate w d) = w <| f_next_id := z |>.
+Proof. unfold generate. destruct (d_gen_batch (getd w d) <=? 0); cbn; eexists; reflexivity. Qed.
+
 Lemma R_finish_cycle fuel w d : R w (finish_cycle fuel nw w d).
 Proof.
   unfold finish_cycle. set (x := getd w d). destruct (d_kind x) eqn:K; try Rt;
@@ -239,7 +340,7 @@ Proof.
   3:{ (* source *)
       destruct (d_out x) eqn:O; [apply R_sched_pass|].
       destruct (generate w d) as [w' it] eqn:G. pose proof (generate_devs w d) as [GD GG]. rewrite G in GD, GG. cbn in GD, GG.
-      apply (R_trans w w'); [apply R_other; assumption|].
+      apply (R_trans w w'); [pose proof (generate_nextid w d) as [z Hz]; rewrite G in Hz; cbn in Hz; rewrite Hz; apply R_nextid|].
       step_dev w' d (t_generated it) (dp_generated nw it);
         [cbn beta; rewrite (getd_other_fields w w' d GD); split; assumption|apply R_sched_pass]. }
   - (* handler *)
@@ -289,7 +390,7 @@ Proof.
                        then updd (w <| f_next_id := f_next_id w + 1 |>) d (t_batch_full rest (mkPart (f_next_id w + 1) 0 0 [] []) ([] ++ [p]))
                        else updd (w <| f_next_id := f_next_id w + 1 |>) d (t_batch_more rest (mkPart (f_next_id w + 1) 0 0 [] []) ([] ++ [p]))) d)).
     { intro NB. set (w1 := w <| f_next_id := f_next_id w + 1 |>).
-      apply (R_trans w w1); [apply R_other; reflexivity|].
+      apply (R_trans w w1); [apply R_nextid|].
       destruct (Z.leb_spec size (Z.of_nat (length ([] ++ [p])))).
       - step_dev w1 d (t_batch_full rest (mkPart (f_next_id w + 1) 0 0 [] []) ([] ++ [p])) (dp_batch_full nw rest (mkPart (f_next_id w + 1) 0 0 [] []) [] p size);
           [cbn beta; change (getd w1 d) with x; repeat split; auto; try (exists it; auto); try (right; split; [reflexivity|exact NB])|].
@@ -321,16 +422,50 @@ Proof.
   step_dev w d t_clear_part (dp_clear_part nw); [cbn beta; fold x; split; [exact KB|exists b; exact P]|Rt].
 Qed.
 
+Lemma not_blank_amem w d : getd w d <> blank_dev KPfc -> amem d (f_devs w) = true.
+Proof. unfold getd, amem. destruct (aget d (f_devs w)); [reflexivity|]. intro H. exfalso. apply H. reflexivity. Qed.
+Lemma req_amem w d rq : d_req (getd w d) = Some rq -> amem d (f_devs w) = true.
+Proof. intro H. apply not_blank_amem. intro E. rewrite E in H. discriminate. Qed.
+Lemma reserved_amem w d i : d_reserved (getd w d) = Some i -> amem d (f_devs w) = true.
+Proof. intro H. apply not_blank_amem. intro E. rewrite E in H. discriminate. Qed.
+
+Lemma rm_quiet_same_core s s' : same_core s s' -> rm_quiet s s'.
+Proof.
+  intros C I. split; [eapply same_core_RInv; eauto|]. destruct C as [P [_ [Rr _]]]. split; [exact Rr|]. intro m. rewrite P. reflexivity.
+Qed.
+
+Lemma rm_quiet_reserve_none rq s :
+  r_err s = 0 -> snd (reserve nw rq s) = None -> rm_quiet s (fst (reserve nw rq s)).
+Proof.
+  intros E N I. destruct (reserve_spec nw rq s I E) as [I1 [Herr [Hnone _]]].
+  destruct (Z.eq_dec (r_err (fst (reserve nw rq s))) 0) as [E1|E1].
+  - destruct (Hnone E1 N) as [-> _]. auto.
+  - destruct (Herr E1) as [C _]. apply rm_quiet_same_core; assumption.
+Qed.
+
+Lemma rm_quiet_register cb rq s : rm_quiet s (register nw cb rq s).
+Proof. intro I. split; [|split; reflexivity]. destruct I as [U C F SL IJ]. split; cbn; assumption. Qed.
+
+Lemma rm_quiet_add n a s : r_err s = 0 -> rm_quiet s (add_resources nw n a s).
+Proof.
+  intros E I. destruct (add_resources_spec nw n a s I E) as [I1 [Herr Hok]]. split; [exact I1|].
+  destruct (Z.eq_dec (r_err (add_resources nw n a s)) 0) as [E1|E1].
+  - destruct (Hok E1) as [U [_ [Rr _]]]. auto.
+  - destruct (Herr E1) as [P [_ [Rr _]]]. split; [exact Rr|]. intro m. rewrite P. reflexivity.
+Qed.
+
 Lemma R_proc_can_accept w d : R w (fst (proc_can_accept nw w d)).
 Proof.
   unfold proc_can_accept. set (x := getd w d). destruct (negb (handler_can_accept x)); [Rt|].
-  destruct (d_req x) as [rq|]; [|Rt]. destruct (d_reserved x); [Rt|].
-  match goal with |- context[rm_call w ?f] => set (w1 := rm_call w f) end.
-  assert (R1 : R w w1) by apply R_rm_call.
-  match goal with |- context[match snd ?r with _ => _ end] => destruct (snd r) as [i|] end.
-  - cbn [fst]. eapply R_trans; [exact R1|]. step_dev w1 d (t_reserved (Some i)) (dp_reserved nw (Some i)); [exact I|Rt].
-  - destruct (negb (okf w1)); [exact R1|]. destruct (d_waiting_res x); [exact R1|]. cbn [fst].
-    eapply R_trans; [exact R1|]. eapply R_trans; [apply R_rm_call|].
+  destruct (d_req x) as [rq|] eqn:RQ; [|Rt]. destruct (d_reserved x) eqn:RV; [Rt|].
+  change (mkRs (r_pools (f_rm w)) (r_wait (f_rm w)) (r_res (f_rm w)) (r_slots (f_rm w)) (r_cblog (f_rm w)) [] 0 (r_env (f_rm w)) (r_nreg (f_rm w)))
+    with (clean_rs (f_rm w)).
+  set (res := reserve nw rq (clean_rs (f_rm w))). set (w1 := rm_call w (fun _ => fst res)).
+  destruct (snd res) as [i|] eqn:SR.
+  - cbn [fst]. apply R_one. apply ws_reserve; auto. apply (req_amem w d rq RQ).
+  - assert (R1 : R w w1) by (apply R_rm_quiet, rm_quiet_reserve_none; [reflexivity|exact SR]).
+    destruct (negb (okf w1)); [exact R1|]. destruct (d_waiting_res x); [exact R1|]. cbn [fst].
+    eapply R_trans; [exact R1|]. eapply R_trans; [apply R_rm_quiet, rm_quiet_register|].
     match goal with |- R ?w0 _ => step_dev w0 d (t_waiting_res true) (dp_waiting_res nw true); [exact I|Rt] end.
 Qed.
 
@@ -341,7 +476,7 @@ Proof. destruct it; cbn; [reflexivity|]. rewrite map_length. reflexivity. Qed.
 Definition can_take (x : dev) (it : item) : Prop :=
   d_part x = None /\ d_out x = None /\
   (d_kind x = KBuffer -> inf_leb (d_level x + item_count it) (d_capacity x) = true) /\
-  (d_kind x = KProcessor -> d_shut x = false).
+  (d_kind x = KProcessor -> d_shut x = false /\ (d_req x = None \/ d_reserved x <> None)).
 
 Lemma handler_can_accept_slots x : handler_can_accept x = true -> d_part x = None /\ d_out x = None.
 Proof.
@@ -356,7 +491,7 @@ Proof.
   assert (R2 : R w w2).
   { unfold w2. destruct (d_kind x0) eqn:K.
     all: try (step_dev w d (t_accept nw it1) (dp_accept nw it1); [cbn beta; fold x0; rewrite K; repeat split; auto; discriminate|Rt]).
-    - step_dev w d (t_accept_proc nw it1) (dp_accept_proc nw it1); [cbn beta; fold x0; repeat split; auto|Rt].
+    - step_dev w d (t_accept_proc nw it1) (dp_accept_proc nw it1); [cbn beta; fold x0; destruct (SH eq_refl); repeat split; auto|Rt].
     - step_dev w d (t_accept_buffer nw it1) (dp_accept_buffer nw it1);
         [cbn beta; fold x0; repeat split; auto; unfold it1; rewrite item_count_add_hist; apply B; reflexivity|apply R_data].
     - step_dev w d (t_accept_sink nw it1) (dp_accept_sink nw it1); [cbn beta; fold x0; repeat split; auto|Rt]. }
@@ -381,17 +516,19 @@ Qed.
 Lemma proc_can_accept_ok w d w1 :
   proc_can_accept nw w d = (w1, true) ->
   handler_can_accept (getd w d) = true /\ d_part (getd w1 d) = None /\ d_out (getd w1 d) = None /\
-  d_kind (getd w1 d) = d_kind (getd w d) /\ d_shut (getd w1 d) = d_shut (getd w d).
+  d_kind (getd w1 d) = d_kind (getd w d) /\ d_shut (getd w1 d) = d_shut (getd w d) /\
+  (d_req (getd w1 d) = None \/ d_reserved (getd w1 d) <> None).
 Proof.
   unfold proc_can_accept. set (x := getd w d). destruct (handler_can_accept x) eqn:H; cbn [negb]; [|intro E; discriminate].
   destruct (handler_can_accept_slots x H) as [P O].
-  destruct (d_req x) as [rq|]; [|intro E; injection E as <-; repeat split; auto].
-  destruct (d_reserved x); [intro E; injection E as <-; repeat split; auto|].
+  destruct (d_req x) as [rq|] eqn:RQ; [|intro E; injection E as <-; repeat split; auto].
+  destruct (d_reserved x) eqn:RV; [intro E; injection E as <-; repeat split; auto; right; fold x; rewrite RV; discriminate|].
   match goal with |- context[rm_call w ?f] => set (w0 := rm_call w f) end.
   assert (G0 : getd w0 d = x) by (apply getd_other_fields, rm_call_devs).
   match goal with |- context[match snd ?r with _ => _ end] => destruct (snd r) as [i|] end.
   - intro E. injection E as <- _. split; [reflexivity|].
     rewrite !(getd_updd_field _ w0 d _ d) by reflexivity. rewrite G0. repeat split; auto.
+    right. rewrite getd_updd, Z.eqb_refl. unfold w0. rewrite (proj1 (rm_call_devs w _)). rewrite (req_amem w d rq RQ). cbn. discriminate.
   - destruct (negb (okf w0)); [intro E; discriminate|]. destruct (d_waiting_res x); intro E; discriminate.
 Qed.
 
@@ -417,9 +554,9 @@ Proof.
   - destruct (proc_can_accept nw w d) as [w1 ok] eqn:PC.
     assert (R1 : R w w1) by (pose proof (R_proc_can_accept w d) as X; rewrite PC in X; exact X).
     destruct ok; [|exact R1]. cbn [fst]. eapply R_trans; [exact R1|]. apply R_accept.
-    destruct (proc_can_accept_ok w d w1 PC) as [HC [P [O [KK SS]]]]. split; [assumption|split; [assumption|split]].
+    destruct (proc_can_accept_ok w d w1 PC) as [HC [P [O [KK [SS HR]]]]]. split; [assumption|split; [assumption|split]].
     + rewrite KK. fold x. rewrite K. discriminate.
-    + intros _. rewrite SS. fold x. unfold handler_can_accept, operational in HC. fold x in HC. rewrite K in HC.
+    + intros _. split; [|exact HR]. rewrite SS. fold x. unfold handler_can_accept, operational in HC. fold x in HC. rewrite K in HC.
       destruct (d_shut x); [discriminate|reflexivity].
   - destruct (inf_leb (d_level x + item_count it) (d_capacity x) && handler_can_accept x) eqn:H; [|Rt]. cbn [fst].
     apply andb_true_iff in H. destruct H as [HL HC]. apply R_accept.
@@ -460,9 +597,8 @@ Qed.
 
 Lemma R_release_reserved w d : R w (release_reserved nw w d).
 Proof.
-  unfold release_reserved. destruct (d_reserved (getd w d)); [|Rt].
-  eapply R_trans; [apply R_rm_call|].
-  match goal with |- R ?w0 _ => step_dev w0 d (t_reserved None) (dp_reserved nw None); [exact I|Rt] end.
+  unfold release_reserved. destruct (d_reserved (getd w d)) eqn:RV; [|Rt].
+  apply R_one, ws_release; [exact RV|apply (reserved_amem w d n RV)].
 Qed.
 
 Lemma R_release_if_idle w d : R w (release_if_idle nw w d).
@@ -546,11 +682,11 @@ Proof.
   destruct (nth_error (r_wait (f_rm w)) i) as [[r cb id]|]; [|Rt].
   destruct (can_fulfill (r_pools (f_rm w)) r); [|apply IH].
   match goal with |- context[signal fuel nw true (updd ?w1 ?dd _) _] => set (w1' := w1); set (d := dd) end.
-  apply (R_trans w w1'); [apply R_other; reflexivity|].
+  apply (R_trans w w1'); [apply R_one, (ws_rm_raw nw w); reflexivity|].
   step_dev w1' d (t_waiting_res false) (dp_waiting_res nw false); [exact I|].
   eapply R_trans; [apply R_signal|].
   match goal with |- context[if negb (okf ?w2) then _ else _] => destruct (negb (okf w2)) end; [Rt|].
-  eapply R_trans; [|apply IH]. apply R_other; reflexivity.
+  eapply R_trans; [|apply IH]. match goal with |- R ?w2 _ => apply R_one, (ws_rm_raw nw w2); reflexivity end.
 Qed.
 
 Lemma R_maint_start mid wo w : R w (maint_start nw mid wo w).
@@ -571,7 +707,7 @@ Proof.
   - destruct (d_budget (getd w d)) as [b|]; [|Rt].
     match goal with |- context[t_budget ?z] => step_dev w d (t_budget z) (dp_budget nw z); [exact I|] end.
     destruct (_ <? 1); [apply R_sched_pass|Rt].
-  - apply R_rm_call.
+  - apply R_rm_quiet, rm_quiet_add. reflexivity.
   - apply R_create_wo.
 Qed.
 
